@@ -34,7 +34,7 @@ PROP = {
     "level_note": "The theorem does not cover unmodelled Go code between a call site and the top that drops a returned "
                   "error; that is what the crash-point stream covers, bounded by its corpus (it found the two known "
                   "findings). A later host failure raised while the first one unwinds (metrics callbacks) may replace the "
-                  "first in the result; the oracle accepts any injected failure of the run as carrier. 36 of 45 callbacks "
+                  "first in the result; the oracle accepts any injected failure of the run as carrier. 40 of 45 callbacks "
                   "are reached by the corpus (not reached: GetCode, ValueExists, ImplementationDebugLog, RecordTrace, "
                   "RecoverProgram and similar).",
     "assumptions": ["host panics carry a Go error value that is not a runtime.Error / InternalError (those are re-panicked unwrapped by design)"],
